@@ -16,9 +16,11 @@ EXPLANATION = (
     "trials_checkpoints_can_be_removed() returned, and the synchronous scheduler only ever lists the not-promoted trials of "
     "a completed rung and hands each list out once; S5 stale hand-off: a warm-start source chosen under 'not stopped' and "
     "parked in a queue is re-validated when used, or purged whenever a trial becomes stopped; S6 resume targets are paused "
-    "trials (shared with C01-S3). NOT decided: the speculative early-removal scoring.")
+    "trials (shared with C01-S3), and the synchronous schedulers PAUSE every trial their promotion path may resume: the guard "
+    "of DEHB's PAUSE decision contains no condition the resume path in _suggest does not test, synchronous Hyperband pauses "
+    "every trial that reaches its milestone. NOT decided: the speculative early-removal scoring.")
 
-FLOOR = {"S1": 4, "S2": 3, "S3": 2, "S4": 4, "S5": 1, "S6": 1}
+FLOOR = {"S1": 4, "S2": 3, "S3": 2, "S4": 4, "S5": 1, "S6": 3}
 
 
 def s1(ctx, rep):
@@ -260,12 +262,89 @@ def s5(ctx, rep):
             "removed - before the clone is started from it")
 
 
+def _last(seg):
+    """last segment of an access path:  ext_slot.bracket_id -> bracket_id (the resume path and the pause path hold the
+    same slot in differently named variables)"""
+    return seg.split(".")[-1] if isinstance(seg, str) else seg
+
+
+def _norm_atom(a):
+    return tuple(_last(x) if isinstance(x, str) else x for x in a)
+
+
+def _expanded_dom_atoms(ctx, f, cfg, nid):
+    """atoms of the branch conditions dominating nid, with `if <local flag>` expanded through the flag's one definition"""
+    from .c01 import _dom_atoms
+    from ..core.facts import atoms_of
+    from ..engine import local_defs
+    out = set()
+    for a in _dom_atoms(cfg, nid):
+        if a[0] == "truth" and a[1].isidentifier():
+            ds = [d for d in local_defs(f, a[1]) if not isinstance(d, tuple)]
+            if len(ds) == 1:
+                out |= atoms_of(ds[0], a[2])
+                continue
+        out.add(a)
+    return out
+
+
+def s7(ctx, rep):
+    """synchronous schedulers resume by promotion: a trial that `_suggest` may resume must have been PAUSEd (a STOP lets the
+    backend delete its checkpoint).  The guard of the PAUSE decision may not be narrower than what the resume path tests."""
+    P = ctx.P
+    # DEHB: pause at a milestone iff pause/resume is supported and the slot is in the first bracket
+    c = P.cls("DifferentialEvolutionHyperbandScheduler")
+    f = c.methods["on_trial_result"]
+    cfg = cfg_of(f)
+
+    def decision_nodes(which):
+        return [n.id for n in cfg.nodes if n.kind == "stmt" and isinstance(n.ast, ast.Assign) and U(n.ast.value) == "SchedulerDecision." + which]
+    pa, st = decision_nodes("PAUSE"), decision_nodes("STOP")
+    if len(pa) != 1 or not st:
+        raise AnchorError("DEHB.on_trial_result: PAUSE / STOP decisions not found")
+    common = None
+    for n in pa + [x for x in st if _expanded_dom_atoms(ctx, f, cfg, x) & _expanded_dom_atoms(ctx, f, cfg, pa[0])]:
+        at = _expanded_dom_atoms(ctx, f, cfg, n)
+        common = at if common is None else (common & at)
+    guard = {_norm_atom(a) for a in _expanded_dom_atoms(ctx, f, cfg, pa[0]) - (common or set())}
+    g = c.methods["_suggest"]
+    cg = cfg_of(g)
+    res = [n.id for n in cg.nodes for x in cg.node_walk(n.id) if isinstance(x, ast.Call) and fn_name(x) == "_promote_trial_and_make_suggestion"]
+    prom = [n.id for n in cg.nodes for x in cg.node_walk(n.id) if isinstance(x, ast.Call) and fn_name(x) == "_encoded_config_by_promotion"]
+    if len(res) != 1 or len(prom) != 1:
+        raise AnchorError("DEHB._suggest: resume (_promote_trial_and_make_suggestion) / promotion source not found")
+    consumer = {_norm_atom(a) for a in _expanded_dom_atoms(ctx, g, cg, res[0]) | _expanded_dom_atoms(ctx, g, cg, prom[0])}
+    extra = sorted(map(str, guard - consumer))
+    rep.put(bool(guard) and not extra, "S6", "agreement",
+            "DEHB.on_trial_result: PAUSE is decided under no more conditions than _suggest tests before it resumes a trial", f, cfg.nodes[pa[0]].ast,
+            f"PAUSE | {sorted(map(str, guard))}; resume | {sorted(map(str, consumer))}",
+            f"the PAUSE decision additionally requires {extra}, which the resume path in _suggest does not test: a first-bracket trial for "
+            "which it is false is STOPped - the backend deletes its checkpoint - and is still resumed by promotion later")
+    # synchronous Hyperband: every trial that reaches its milestone is paused (promotion resumes it); no STOP at a milestone
+    h = P.method("SynchronousHyperbandScheduler", "on_trial_result")
+    ch = cfg_of(h)
+    pa2 = [n.id for n in ch.nodes if n.kind == "stmt" and isinstance(n.ast, ast.Assign) and U(n.ast.value) == "SchedulerDecision.PAUSE"]
+    ms = [n for n in ch.nodes if n.kind == "test" and any(a[0] == "le" and _last(a[1]) == "milestone" for a in
+          __import__("stverif.core.facts", fromlist=["atoms_of"]).atoms_of(n.ast, True))]
+    ok = len(pa2) == 1 and len(ms) >= 1
+    if ok:
+        # from the true edge of `resource >= milestone` every path to the exit passes the PAUSE assignment and no STOP/CONTINUE follows it
+        starts = [s_ for s_, l in ch.succ[ms[0].id] if isinstance(l, tuple) and l[0] == "cond" and l[2] is True]
+        later = [n.id for n in ch.nodes if n.kind == "stmt" and isinstance(n.ast, ast.Assign) and U(n.ast.value).startswith("SchedulerDecision.")
+                 and n.id != pa2[0] and n.id in ch.reachable([s_ for s_, l in ch.succ[pa2[0]]])]
+        ok = bool(starts) and ch.path(starts, ch.exit, deleted={pa2[0]}, skip_labels=("exc",)) is None and not later
+    rep.put(ok, "S6", "must_follow", "SynchronousHyperbandScheduler.on_trial_result: a trial that reaches its milestone is PAUSEd (never stopped)", h,
+            ch.nodes[pa2[0]].ast if pa2 else None, "", "a trial that reaches its rung level can be STOPped: its checkpoint is deleted although the "
+            "bracket may promote (resume) it when the rung completes")
+
+
 def run(ctx, rep, tier="quick"):
     s1(ctx, rep)
     s2(ctx, rep)
     s3(ctx, rep)
     s4(ctx, rep)
     s5(ctx, rep)
+    s7(ctx, rep)
     # S6 shared with C01-S3
     P = ctx.P
     tb = P.cls("TrialBackend")
